@@ -8,18 +8,35 @@
 #include <compat/mem/lin_malloc.h>
 using namespace vlog;
 extern "C" { void *igv_malloc(size_t); void igv_free(void *); void *igv_realloc(void *, size_t); }
-extern char *__brkval; extern struct __freelist *__flp; extern int __allocation_counter;
+#include <sys/mman.h>
+extern char *__brkval; extern struct __freelist *__flp; extern int __allocation_counter; extern char *__malloc_heap_start;
 static const size_t ARENA = 1 << 20;
 char _heap_start[ARENA] __attribute__((aligned(64)));
+// "R heapbig": an arena of 12 GiB of lazily committed address space, for requests of 2 GiB, 4 GiB and more.  Offsets, break and free list
+// are then logged in units of 8 bytes (unit = 8) with the remainders summed in "rem", request sizes as nh * 2^20 + nl: TLC integers have 32 bits.
+static const size_t BIGARENA = (size_t)12 << 30;
+static char *bigbase = nullptr; static char *base = _heap_start; static long unit = 1; static long rem = 0;
 struct Blk { unsigned char *p; size_t n; };
 static std::map<int, Blk> live;
-static long off(const void *p) { return p ? (long)((const char *)p - _heap_start) : -1; }
-static void fill(int id, unsigned char *p, size_t n, size_t from = 0) { for (size_t i = from; i < n; ++i) p[i] = (unsigned char)(id * 31 + i * 7 + 1); }
-static long bad_at(int id, const unsigned char *p, size_t n) { for (size_t i = 0; i < n; ++i) if (p[i] != (unsigned char)(id * 31 + i * 7 + 1)) return (long)i; return -1; }
+static long off(const void *p) { if (!p) return -1; long d = (long)((const char *)p - base); if (unit > 1) { rem += ((d % unit) + unit) % unit; d = (d - ((d % unit) + unit) % unit) / unit; } return d; }
+static long sz(size_t v) { if (unit > 1) { rem += v % unit; return (long)(v / unit); } return (long)v; }
+// blocks of more than 1 MiB carry the pattern in their first and last 4 KiB only
+static const size_t SPARSE = 1 << 20, EDGE = 4096;
+static unsigned char pat(int id, size_t i) { return (unsigned char)(id * 31 + i * 7 + 1); }
+static void fill(int id, unsigned char *p, size_t n, size_t from = 0) {
+    if (n <= SPARSE) { for (size_t i = from; i < n; ++i) p[i] = pat(id, i); return; }
+    for (size_t i = from; i < EDGE; ++i) p[i] = pat(id, i);
+    for (size_t i = (from > n - EDGE ? from : n - EDGE); i < n; ++i) p[i] = pat(id, i); }
+static long bad_at(int id, const unsigned char *p, size_t n) {
+    if (n <= SPARSE) { for (size_t i = 0; i < n; ++i) if (p[i] != pat(id, i)) return (long)i; return -1; }
+    for (size_t i = 0; i < EDGE; ++i) if (p[i] != pat(id, i)) return (long)i;
+    for (size_t i = n - EDGE; i < n; ++i) if (p[i] != pat(id, i)) return (long)(i >> 20) + EDGE;   // position in MiB: must fit 32 bits
+    return -1; }
+static void req(Ev &e, size_t n) { if (unit > 1) e.i("nh", (long long)(n >> 20)).i("nl", (long long)(n & ((1 << 20) - 1))).i("n", 0); else e.i("n", n); }
 static void heap_obs(Ev &e) {
     std::vector<long long> corrupt; for (auto &kv : live) if (bad_at(kv.first, kv.second.p, kv.second.n) >= 0) corrupt.push_back(kv.first);
-    std::string fl = "["; int k = 0; for (struct __freelist *f = __flp; f && k < 300; f = f->nx, ++k) { if (k) fl += ","; fl += "[" + std::to_string(off(f)) + "," + std::to_string((long)f->sz) + "]"; } fl += "]";
-    e.i("brk", off(__brkval)).raw("fl", fl).ints("corrupt", corrupt).i("nlive", live.size());
+    std::string fl = "["; int k = 0; for (struct __freelist *f = __flp; f && k < 300; f = f->nx, ++k) { if (k) fl += ","; fl += "[" + std::to_string(off(f)) + "," + std::to_string(sz(f->sz)) + "]"; } fl += "]";
+    e.i("brk", off(__brkval)).raw("fl", fl).ints("corrupt", corrupt).i("nlive", live.size()).i("unit", unit).i("rem", rem); rem = 0;
 }
 // ---- pools ----
 static std::string pk; static int pcap, pel; static unsigned char *zone = nullptr; static pool_head PH; static std::unique_ptr<igris::pool> IP;
@@ -41,7 +58,10 @@ int main(int argc, char **argv) {
     return run(argc, argv, [&](const std::vector<std::string> &t) {
         const std::string &op = t[0];
         if (op == "R") {
-            if (t[1] == "heap") { live.clear(); __brkval = 0; __flp = 0; __allocation_counter = 0; memset(_heap_start, 0xEE, 4096); Ev e("Reset"); e.str("kind", "heap").i("cap", 0).i("el", 0); heap_obs(e); e.end(); }
+            if (t[1] == "heap" || t[1] == "heapbig") { live.clear(); __brkval = 0; __flp = 0; __allocation_counter = 0; rem = 0;
+                if (t[1] == "heapbig") { if (!bigbase) { bigbase = (char *)mmap(nullptr, BIGARENA, PROT_READ | PROT_WRITE, MAP_PRIVATE | MAP_ANONYMOUS | MAP_NORESERVE, -1, 0); if (bigbase == (char *)MAP_FAILED) { perror("mmap"); exit(3); } }
+                    base = bigbase; unit = 8; } else { base = _heap_start; unit = 1; }
+                __malloc_heap_start = base; memset(base, 0xEE, 4096); Ev e("Reset"); e.str("kind", "heap").i("cap", 0).i("el", 0); heap_obs(e); e.end(); }
             else { pk = t[1]; pcap = num(t[2]); pel = num(t[3]); plive.clear();
                 if (pk != "sop") { free(zone); zone = (unsigned char *)aligned_alloc(64, ((128 + pcap * pel + 64 + 63) / 64) * 64); memset(zone, 0xA5, 128 + pcap * pel); }
                 if (pk == "ph") { pool_init(&PH); pool_engage(&PH, zone + 64, pcap * pel, pel); }
@@ -50,12 +70,12 @@ int main(int argc, char **argv) {
                 Ev e("Reset"); e.str("kind", pk.c_str()).i("cap", pcap).i("el", pel); pool_obs(e); e.end(); }
             return; }
         if (op == "Malloc") { int id = num(t[1]); size_t n = num(t[2]); unsigned char *p = (unsigned char *)igv_malloc(n); if (p) { fill(id, p, n); live[id] = Blk{p, n}; }
-            Ev e("Malloc"); e.i("id", id).i("n", n).i("off", off(p)); heap_obs(e); e.end(); }
+            Ev e("Malloc"); e.i("id", id); req(e, n); e.i("offr", p ? (long)(((char *)p - base) % 8) : 0); rem = 0; e.i("off", off(p)); rem = 0; heap_obs(e); e.end(); }
         else if (op == "Free") { int id = num(t[1]); Blk b = live[id]; long bad = bad_at(id, b.p, b.n); live.erase(id); igv_free(b.p); Ev e("Free"); e.i("id", id).i("bad_at", bad); heap_obs(e); e.end(); }
         else if (op == "FreeNull") { igv_free(0); Ev e("FreeNull"); heap_obs(e); e.end(); }
         else if (op == "Realloc") { int id = num(t[1]); size_t n = num(t[2]); Blk b = live[id]; unsigned char *p = (unsigned char *)igv_realloc(b.p, n); long bad = -1;
-            if (p) { size_t keep = b.n < n ? b.n : n; bad = bad_at(id, p, keep); fill(id, p, n, keep); live[id] = Blk{p, n}; }
-            Ev e("Realloc"); e.i("id", id).i("n", n).i("off", off(p)).i("bad_at", bad); heap_obs(e); e.end(); }
+            if (p) { size_t keep = b.n < n ? b.n : n; if (b.n > SPARSE && keep > EDGE) keep = EDGE; bad = bad_at(id, p, keep); fill(id, p, n, keep); live[id] = Blk{p, n}; }
+            Ev e("Realloc"); e.i("id", id); req(e, n); e.i("offr", p ? (long)(((char *)p - base) % 8) : 0); rem = 0; e.i("off", off(p)); rem = 0; e.i("bad_at", bad); heap_obs(e); e.end(); }
         else if (op == "PAlloc") { void *p = nullptr;
             if (pk == "ph") p = pool_alloc(&PH); else if (pk == "ip") p = IP->get();
             else if (pel == 8) p = S84->create(); else if (pel == 24) p = S243->create(); else if (pel == 64) p = S641->create(); else p = S125->create();
